@@ -1,5 +1,7 @@
 import ThruVerif.Model.Sidecar
 import ThruVerif.Gen.Consts
+import ThruVerif.Proofs.Resume
+import ThruVerif.Gen.Shapes
 /-!
 # C06 — Stale, foreign or damaged resume state is never trusted  (metadata part)
 
@@ -135,3 +137,99 @@ example : bitmapOk [0xF8] 3 = false := by decide      -- stray bits 3..7 with to
 example : bitmapOk [0x07] 3 = true := by decide
 
 end TV.C06
+
+namespace TV.Resume
+
+/-! ### the resume negotiation (`Model/Resume`): what the receiver reports and what the sender plans from it -/
+
+/-- **C06_resume_repairs_last_chunk.** The receiver found a sidecar whose recorded chunks are in the file except, possibly, the
+highest recorded one (torn by power loss). With verification on (`--resume-verify` other than none, a hash algorithm, tail >= 1:
+the CLI's configuration), for any bitmap, any position of the damaged chunk, and whether or not the receiver could hash it in
+time: after the resumed run every chunk of the file is good - the damaged chunk is re-sent because its hash differs or, when the
+hash is unknown, because it lies at or above `forceSendFrom`; nothing that is missing is skipped. -/
+theorem C06_resume_repairs_last_chunk (c : Cfg) (total : Nat) (b : List Bool) (good : Nat → Bool) (hashed : Bool)
+    (hlen : b.length = total) (ht : total > 0) (hv : c.verify = true) (hh : c.hashOn = true) (htl : c.tail ≥ 1)
+    (hsound : ∀ i, bit b i = true → highest b total ≠ some i → good i = true) (i : Nat) (hi : i < total) :
+    goodAfter good (recvInfo total b good hashed c.hashOn) (plan c (recvInfo total b good hashed c.hashOn)) i = true := by
+  cases hhi : highest b total with
+  | none =>
+    have hb := highest_none hhi i hi
+    simp [goodAfter, sent, skipped, recvInfo, hhi, hb, hi]
+  | some h =>
+    obtain ⟨hbh, hht, habove⟩ := highest_some hhi
+    by_cases hbi : bit b i = true
+    · by_cases hih : i = h
+      · subst hih
+        cases hg : good i with
+        | true => simp [goodAfter, hg]
+        | false =>
+          cases hashed with
+          | true =>
+            simp only [goodAfter, sent, resend, recvInfo, hhi, hi, hg, hh, decide_true, Bool.true_and, Bool.false_or, Bool.not_true,
+              Bool.not_false, Bool.and_true, Bool.or_eq_true, Bool.or_true]
+            right
+            rw [verifyNeeded_eq]
+            simp [hi, hv, hh]
+          | false =>
+            have hle := force_le_unknown (c := c) (info := recvInfo total b good false c.hashOn)
+              (by simp [recvInfo, hhi, hh]) htl (by simpa [recvInfo, hhi] using ht) (by simpa [recvInfo, hhi] using hi)
+              (by
+                intro hall
+                simp only [recvInfo, hhi] at hall ⊢
+                have hlast := all_set_of_count (b := b) (by omega) (total - 1) (by omega)
+                have : ¬ (i < total - 1) := fun hlt => by
+                  have := habove (total - 1) hlt (by omega)
+                  rw [hlast] at this
+                  cases this
+                omega)
+            simp only [recvInfo, hhi] at hle
+            simp only [goodAfter, sent, skipped, recvInfo, hhi, hi, decide_true, Bool.true_and, Bool.or_eq_true]
+            right; left
+            simp only [Bool.not_eq_true', Bool.and_eq_false_iff, decide_eq_false_iff_not]
+            right
+            omega
+      · have := hsound i hbi (by rw [hhi]; intro e; injection e with e; exact hih e.symm)
+        simp [goodAfter, this]
+    · have hbf : bit b i = false := by cases hb : bit b i <;> simp_all
+      simp [goodAfter, sent, skipped, recvInfo, hhi, hbf, hi]
+
+/-- nothing recorded: every chunk travels -/
+theorem C06_nothing_recorded_sends_all (c : Cfg) (total : Nat) (b : List Bool) (good : Nat → Bool) (hashed : Bool)
+    (hn : highest b total = none) (i : Nat) (hi : i < total) :
+    sent (recvInfo total b good hashed c.hashOn) (plan c (recvInfo total b good hashed c.hashOn)) i = true := by
+  have hb := highest_none hn i hi
+  simp [sent, skipped, recvInfo, hn, hb, hi]
+
+open TV.Gen.Shapes in
+set_option maxRecDepth 16384 in
+/-- the source `Model/Resume.plan` / `recvInfo` were transcribed from: every assignment to `forceSendFrom`, every `if` that mentions it
+(enclosing conditions first), the definitions of `verifyNeeded`, `allComplete`, `hashUnknown`, `minForce`, the chunk that is re-sent,
+and what the receiver puts into its report -/
+theorem C06_source_plan :
+    plan_force_assigns = ["uint32(0)", "verifiedChunk + 1", "totalChunks", "0", "tail", "totalChunks", "minForce"] ∧
+    plan_force_ifs = ["totalChunks > 0 && len(info.Bitmap) > 0 ; !allComplete ; tail > 0 && forceSendFrom > 0",
+      "totalChunks > 0 && len(info.Bitmap) > 0 ; !allComplete ; tail > 0 && forceSendFrom > 0 ; tail >= forceSendFrom",
+      "totalChunks > 0 && len(info.Bitmap) > 0 ; forceSendFrom > totalChunks",
+      "totalChunks > 0 && len(info.Bitmap) > 0 ; hashUnknown && totalChunks > 0 ; forceSendFrom > minForce",
+      "totalChunks > 0 && len(info.Bitmap) > 0 ; opts.ResumeStatsFn != nil ; forceSendFrom > 0"] ∧
+    plan_verify_needed = ["verifyMode != \"none\" && verifiedChunk < totalChunks && hashAlg != HashAlgNone && !hashUnknown"] ∧
+    plan_all_complete = ["totalChunks > 0 && completedChunks >= totalChunks"] ∧
+    plan_hash_unknown = ["info.LastVerifiedHash == resumeHashUnknown"] ∧
+    plan_min_force = ["uint32(0)", "totalChunks - tail"] ∧
+    plan_resend_chunk = ["vChunk"] ∧
+    report_last_verified = ["state.totalChunks", "uint32(highest)", "state.totalChunks"] ∧
+    report_hash = ["hashValue", "resumeHashUnknown"] ∧
+    report_bitmap = ["state.sidecar.MarshalBitmap()"] := by decide
+
+-- non-vacuity and the excluded configurations, on 8 chunks with chunks 0,1,2,5 recorded and chunk 5 torn
+def exGood : Nat → Bool := fun i => i == 0 || i == 1 || i == 2
+def exB : List Bool := [true, true, true, false, false, true, false, false]
+-- CLI configuration: chunks 3,4 (missing), 5 (torn: hash differs; also within the tail), 6,7 travel; 0..2 do not
+example : sentList (recvInfo 8 exB exGood true true) (plan ⟨1, true, true⟩ (recvInfo 8 exB exGood true true)) = [3, 4, 5, 6, 7] := by decide
+-- library-only configuration tail = 0 with the hash not computed in time: the torn chunk 5 is skipped (why `tail >= 1` is assumed;
+-- `thru` forces ResumeVerifyTail = 1)
+example : sentList (recvInfo 8 exB exGood false true) (plan ⟨0, true, true⟩ (recvInfo 8 exB exGood false true)) = [3, 4, 6, 7] := by decide
+-- verification switched off by the user and everything recorded: nothing travels, a torn last chunk stays
+example : sentList (recvInfo 3 [true, true, true] (fun i => i != 2) true true) (plan ⟨1, false, true⟩ (recvInfo 3 [true, true, true] (fun i => i != 2) true true)) = [] := by decide
+
+end TV.Resume
